@@ -21,6 +21,8 @@ def gen_word(table, row, rng, cond=None, tries=60):
                 v = rng.choice(REG_POOL) if rng.random() < 0.7 else rng.randrange(16)
             elif k == 3 and ch in 'ndmt':
                 v = rng.randrange(8)
+            elif ch == 'r' and k >= 8 and rng.random() < 0.35:
+                v = reglist(rng, k)
             else:
                 r = rng.random()
                 v = 0 if r < 0.15 else ((1 << k) - 1 if r < 0.3 else (1 if r < 0.4 else (1 << (k - 1) if r < 0.5 else rng.getrandbits(k))))
@@ -36,6 +38,49 @@ def gen_word(table, row, rng, cond=None, tries=60):
         if table.match(w) is row:
             return w
     return None
+
+
+def reglist(rng, k):
+    """structured register lists: single, pairs, only high registers (SP/LR/PC with nothing below), everything,
+    dense low ranges"""
+    top = [b for b in (13, 14, 15) if b < k] or [k - 1]
+    r = rng.random()
+    if r < 0.2:
+        return 1 << rng.randrange(k)
+    if r < 0.4:
+        return (1 << rng.randrange(k)) | (1 << rng.randrange(k))
+    if r < 0.65:
+        v = 0
+        for b in top:
+            if rng.random() < 0.6:
+                v |= 1 << b
+        return v or (1 << top[0])
+    if r < 0.75:
+        return (1 << k) - 1
+    if r < 0.85:
+        return ((1 << k) - 1) & ~(1 << rng.randrange(k))
+    lo = rng.randrange(k)
+    hi = rng.randrange(lo, k)
+    return ((1 << (hi + 1)) - 1) & ~((1 << lo) - 1)
+
+
+def neighbour_words(table, wanted, rng, attempts):
+    """words of `wanted` rows that lie one fixed bit away from a word of ANOTHER row (alias encodings such as
+    PUSH = STR Rt,[SP,#-4]!, literal forms, SEE redirections): errors of the decoder's special-case tests show up
+    exactly there.  Yields (word, row)."""
+    rows = [r for r in table.rows if r.mask]
+    for _ in range(attempts):
+        src = rows[rng.randrange(len(rows))]
+        w = gen_word(table, src, rng, tries=4)
+        if w is None:
+            continue
+        mbits = [b for b in range(src.width) if (src.mask >> b) & 1]
+        w2 = w ^ (1 << rng.choice(mbits))
+        if rng.random() < 0.2:
+            w2 ^= 1 << rng.choice(mbits)
+        dst = table.match(w2)
+        if dst is not None and dst is not src and id(dst) in wanted:
+            yield w2, dst
 
 
 def categ(name):
